@@ -66,7 +66,8 @@ impl FunctionMarkupPass {
 
                 let inst = With::new(JumpLinkType::Jal, info.clone());
                 let rd = With::new(Register::X0, info.clone());
-                let name = With::new(LabelString::new("__return__"), info.clone());
+                // (a name that no label of the program can have)
+                let name = With::new(LabelString::new("<return>"), info.clone());
                 // (the jump keeps the location of the return it replaces)
                 let new_node =
                     ParserNode::new_jump_link(inst, rd, name, found_ret.node().token().clone());
